@@ -348,3 +348,86 @@ same_harness!(tok_same_words_2, 2, 4, tokenize_words);
 same_harness!(tok_same_words_3, 3, 5, tokenize_words);
 same_harness!(tok_same_chars_2, 2, 4, tokenize_chars);
 same_harness!(tok_same_chars_3, 3, 5, tokenize_chars);
+
+
+// ---------------------------------------------------------------- longer ASCII inputs with a symbolic window
+//
+// 18 / 34 bytes of concrete ASCII filler with a window of 3 symbolic ASCII bytes straddling
+// offset 16 / 32: chunked or look-ahead based scanning that misbehaves at a block boundary
+// shows up here.  The window is assumed ASCII so that no UTF-8 validation is needed.
+// (The same harness for the word and lines-and-newlines tokenizers did not finish in 2000 s.)
+
+macro_rules! window_harness {
+    ($name:ident, $len:expr, $at:expr, $unwind:expr, $m:ident, $shape:ident) => {
+        #[cfg_attr(kani, kani::proof)]
+        #[cfg_attr(kani, kani::unwind($unwind))]
+        #[cfg_attr(kani, kani::stub(std::vec::Vec::new, stubs::vec_new))]
+        #[cfg_attr(kani, kani::stub(std::vec::Vec::push, stubs::vec_push))]
+        pub fn $name() {
+            let mut buf = [b'x'; $len];
+            let w0: u8 = crate::src::any();
+            let w1: u8 = crate::src::any();
+            let w2: u8 = crate::src::any();
+            crate::src::assume(w0 < 0x80 && w1 < 0x80 && w2 < 0x80);
+            buf[$at] = w0;
+            buf[$at + 1] = w1;
+            buf[$at + 2] = w2;
+            // SAFETY: all bytes are ASCII
+            let s = unsafe { std::str::from_utf8_unchecked(&buf) };
+            let v = s.$m();
+            let mut b: [&[u8]; 8] = [&[]; 8];
+            let n = as_bytes_vec(&v, &mut b);
+            check_partition(s.as_ptr(), s.len(), &b[..n]);
+            $shape(&b[..n]);
+            // the byte implementation returns the same tokens
+            let w = buf[..].$m();
+            assert!(w.len() == v.len(), "str and [u8] return different numbers of tokens");
+            let mut i = 0;
+            while i < w.len() {
+                assert!(w[i].as_ptr() == v[i].as_ptr() && w[i].len() == v[i].len(), "str and [u8] tokens differ");
+                i += 1;
+            }
+            crate::cover!(n >= 2, "a separator inside the window");
+            std::mem::forget(v);
+            std::mem::forget(w);
+        }
+    };
+}
+
+fn ascii_words_shape(toks: &[&[u8]]) {
+    // ASCII only: a token is all whitespace or all non-whitespace, adjacent tokens differ
+    let mut i = 0;
+    while i < toks.len() {
+        let t = toks[i];
+        let cls = (t[0] as char).is_whitespace();
+        let mut k = 0;
+        while k < t.len() {
+            assert!((t[k] as char).is_whitespace() == cls, "token mixes whitespace and non-whitespace");
+            k += 1;
+        }
+        if i > 0 {
+            assert!((toks[i - 1][0] as char).is_whitespace() != cls, "adjacent word tokens of the same class (not maximal)");
+        }
+        i += 1;
+    }
+}
+
+fn ascii_lnl_shape(toks: &[&[u8]]) {
+    let mut i = 0;
+    while i < toks.len() {
+        let t = toks[i];
+        let cls = is_nl(t[0]);
+        let mut k = 0;
+        while k < t.len() {
+            assert!(is_nl(t[k]) == cls, "mixed newline / non-newline token");
+            k += 1;
+        }
+        if i > 0 {
+            assert!(is_nl(toks[i - 1][0]) != cls, "adjacent tokens of the same class (not maximal)");
+        }
+        i += 1;
+    }
+}
+
+window_harness!(tok_window_lines_18_at14, 18, 14, 21, tokenize_lines, check_lines);
+window_harness!(tok_window_lines_34_at30, 34, 30, 37, tokenize_lines, check_lines);
